@@ -56,10 +56,11 @@ func main() { Main("C12", runC12, map[string]func([]string) int{"batch": childBa
 type Case struct {
 	ID      int    `json:"id"`
 	Kind    string `json:"kind"`
-	Parents []int  `json:"parents"` // Parents[i] = label of the parent of block i+1 (0 = genesis)
-	Bad     []int  `json:"bad"`     // per block: 0 valid, 1 header version 2 (invalid), 2 signed by the wrong key (invalid)
-	Order   []int  `json:"order"`   // delivered labels, in order
-	Ref     bool   `json:"ref"`     // also deliver the same set in tree order to a second fresh node
+	Parents []int  `json:"parents"`       // Parents[i] = label of the parent of block i+1 (0 = genesis)
+	Bad     []int  `json:"bad"`           // per block: 0 valid, 1 header version 2 (invalid), 2 signed by the wrong key (invalid)
+	Order   []int  `json:"order"`         // delivered labels, in order
+	Ref     bool   `json:"ref"`           // also deliver the same set in tree order to a second fresh node
+	Par     int    `json:"par,omitempty"` // >1: the order is delivered in windows of Par blocks, each window from Par goroutines at once
 }
 
 type Step struct {
@@ -70,11 +71,11 @@ type Step struct {
 type Result struct {
 	ID     int     `json:"id"`
 	Steps  []Step  `json:"steps"`
-	Stored []bool  `json:"stored"` // per label 0..n: store.GetBlockHeader succeeds
-	Orphan []bool  `json:"orphan"` // per label 0..n: OrphanManage.BlockExist
-	Exist  []bool  `json:"exist"`  // per label 0..n: Chain.BlockExist
-	Prev   [][]int `json:"prev"`   // per label 0..n as parent: labels listed by GetPrevOrphans (-1 = unknown hash)
-	Best   uint64  `json:"best"`   // height of Chain.BestBlockHeader
+	Stored []bool  `json:"stored"`        // per label 0..n: store.GetBlockHeader succeeds
+	Orphan []bool  `json:"orphan"`        // per label 0..n: OrphanManage.BlockExist
+	Exist  []bool  `json:"exist"`         // per label 0..n: Chain.BlockExist
+	Prev   [][]int `json:"prev"`          // per label 0..n as parent: labels listed by GetPrevOrphans (-1 = unknown hash)
+	Best   uint64  `json:"best"`          // height of Chain.BestBlockHeader
 	Ref    []bool  `json:"ref,omitempty"` // per label: stored by a fresh node that got the same set in tree order
 	Panic  string  `json:"panic,omitempty"`
 	Hang   bool    `json:"hang,omitempty"`
@@ -157,9 +158,26 @@ func runNode(w *cl.World, t *builtTree, c *Case, base string, ref bool) (*Result
 		}
 		r.Ref = rr.Stored
 	}
-	for _, l := range c.Order {
-		orphan, err := chain.ProcessBlock(cl.CloneBlock(t.blocks[l].Block))
-		r.Steps = append(r.Steps, Step{orphan, errClass(err)})
+	if c.Par > 1 {
+		// peers deliver blocks concurrently: each window of Par deliveries is made from Par goroutines
+		r.Steps = make([]Step, len(c.Order))
+		for at := 0; at < len(c.Order); at += c.Par {
+			var wg sync.WaitGroup
+			for k := at; k < at+c.Par && k < len(c.Order); k++ {
+				wg.Add(1)
+				go func(k int) {
+					defer wg.Done()
+					orphan, err := chain.ProcessBlock(cl.CloneBlock(t.blocks[c.Order[k]].Block))
+					r.Steps[k] = Step{orphan, errClass(err)}
+				}(k)
+			}
+			wg.Wait()
+		}
+	} else {
+		for _, l := range c.Order {
+			orphan, err := chain.ProcessBlock(cl.CloneBlock(t.blocks[l].Block))
+			r.Steps = append(r.Steps, Step{orphan, errClass(err)})
+		}
 	}
 	label := map[bc.Hash]int{}
 	for i, b := range t.blocks {
@@ -898,6 +916,35 @@ func runC12(c *Ctx) error {
 		add("malformed", parents, bad, order)
 	}
 
+	// ---- concurrent deliveries (oracle only: the step answers depend on the interleaving, the final
+	// state must not): a block and its parent (and an uncle) arrive from different peers at once
+	for i, nc := 0, c.N(60, 300); i < nc; i++ {
+		n := 12 + c.Rng.Intn(6)
+		parents := make([]int, n)
+		for b := 1; b <= n; b++ {
+			parents[b-1] = b - 1 // a chain ...
+			if b > 3 && c.Rng.Chance(20) {
+				parents[b-1] = b - 2 // ... with an occasional sibling
+			}
+		}
+		par := 2 + c.Rng.Intn(2)
+		var order []int
+		for at := 1; at <= n; at += par {
+			var w []int
+			for b := at; b < at+par && b <= n; b++ {
+				w = append(w, b)
+			}
+			if c.Rng.Chance(70) { // child listed (started) before its parent
+				for l, r := 0, len(w)-1; l < r; l, r = l+1, r-1 {
+					w[l], w[r] = w[r], w[l]
+				}
+			}
+			order = append(order, w...)
+		}
+		add("concurrent", parents, zeros(n), order)
+		cases[len(cases)-1].Par = par
+	}
+
 	res, err := runAll(cases)
 	if err != nil {
 		return err
@@ -921,7 +968,10 @@ func runC12(c *Ctx) error {
 		// every case goes through the oracle; the model is evaluated on all of them except that the two
 		// largest exhaustive streams of the thorough tier are thinned to every third case (and every failure)
 		id := cs.ID
-		if thin := cs.Kind == "exhaustive_6" || cs.Kind == "exhaustive_7"; !thin || cs.ID%3 == 0 || len(fails) > 0 || r.Panic != "" {
+		if cs.Kind == "concurrent" {
+			id = -1
+			c.Stats.Count("concurrent-oracle-only")
+		} else if thin := cs.Kind == "exhaustive_6" || cs.Kind == "exhaustive_7"; !thin || cs.ID%3 == 0 || len(fails) > 0 || r.Panic != "" {
 			id = c.Cases.Add(modelExpr(cs), observedExpr(r))
 			c.Stats.Count("model_evaluated")
 		} else {
